@@ -149,6 +149,13 @@ def c05(A):
             if not cur:
                 continue
             c = cur[0]
+
+            def behind_refusal(r):
+                # only ever sent behind a CONNECT that was refused: the broker never took it on; its retry timer will repeat it
+                return bool(r.tx and c.n_connects > 1 and c.i_connect_accepted is not None
+                            and not any(e["i"] > c.i_connect_accepted for e in r.tx))
+            waiting = [r for r in pub_reqs(A) if r.a == a and r.info["qos"] in (1, 2) and not r.called_at_return
+                       and r.i_ret <= A.i_endmark and not r.fired_before(A.i_endmark) and behind_refusal(r)]
             for r in pub_reqs(A):
                 if r.a != a or r.info["qos"] not in (1, 2) or r.called_at_return:
                     continue
@@ -158,6 +165,8 @@ def c05(A):
                     continue
                 if A.cfg.profile not in PUBCAP or boundary_state(A, A.conns[r.conn], r.i_call) not in ("connected", "connecting"):
                     continue
+                if behind_refusal(r) or (waiting and not r.tx):
+                    continue      # (or held back behind such a message, which rightly occupies the window until its timer repeats it)
                 o.bad("never-completes/%s" % ("untransmitted" if not r.tx else "transmitted"),
                       "publish (token %s, id %r) still pending after the broker acknowledged everything it was sent"
                       % (r.info["token"], r.msgId), A.trace[A.i_endmark])
